@@ -80,6 +80,10 @@ impl<'a> Iterator for Params<'a> {
                     ));
                 }
                 self.input = rest;
+            } else if !rest.is_empty() {
+                // new-params-bound flag is 0: types from the previous execution are reused,
+                // but the flag byte itself still precedes the values
+                self.input = &rest[1..];
             }
         }
 
